@@ -45,6 +45,8 @@ type Case struct {
 	Threads    [][]Op `json:"threads"`
 	Yield      []int  `json:"yield"` // microseconds slept at successive hook sites (cyclic); 0 = Gosched
 	Entries    int    `json:"entries"`
+	// NoTrusted: no trusted_signature_certs are configured: a list can only be verified with the chain of a handshake
+	NoTrusted bool `json:"no_trusted,omitempty"`
 	// Flaky: once the goroutines run, the first Flaky requests to every location are answered with an error page
 	// (the list follows on the next request): concurrent first-use handshakes of which one fails and the next succeeds
 	Flaky int `json:"flaky,omitempty"`
@@ -63,6 +65,7 @@ func genCase(t *rapid.T) Case {
 		Yield:      rapid.SliceOfN(rapid.SampledFrom([]int{0, 0, 20, 200, 1000}), 1, 6).Draw(t, "yield"),
 		Entries:    rapid.SampledFrom([]int{1, 30, 1500}).Draw(t, "entries"),
 		Flaky:      rapid.SampledFrom([]int{0, 0, 1, 1, 2}).Draw(t, "flaky"),
+		NoTrusted:  rapid.IntRange(0, 2).Draw(t, "notrusted") == 0,
 	}
 	n := rapid.IntRange(2, 16).Draw(t, "threads")
 	for g := 0; g < n; g++ {
@@ -82,6 +85,9 @@ func genCase(t *rapid.T) Case {
 			ops = append(ops, op)
 		}
 		c.Threads = append(c.Threads, ops)
+	}
+	if c.Conf || c.BadPrefix {
+		c.NoTrusted = false // configured lists and the prefix state need a configured trusted signer
 	}
 	if c.Flaky > 0 {
 		// With the flaky origin a location may still be unloaded when Cleanup arrives; every later handshake naming it then
@@ -182,6 +188,9 @@ func runScenario(c Case) (res childResult) {
 	ocspChains2 := pki.ChainFor(ocspLeaf2)
 
 	opts := world.CRLOpts{WorkDir: world.NewDir("c13"), Disk: c.Disk, Background: c.Background, Strict: c.Strict, Trusted: []*x509.Certificate{pki.Issuer().Cert}}
+	if c.NoTrusted {
+		opts.Trusted = nil
+	}
 	if c.Conf {
 		opts.URLs = []string{o.URL(locs[0].path)}
 	}
@@ -392,9 +401,34 @@ func runScenario(c Case) (res childResult) {
 				stable = 0
 			}
 		}
-		for loc := range touch {
-			if v := world.Ask(ch, locs[loc].probes[0]); v.Kind != "revoked" {
+		sibTouched, announced := map[int]bool{}, map[int]bool{}
+		for _, ops := range c.Threads {
+			for _, op := range ops {
+				if op.Kind == "handshake" && op.Probe == 4 {
+					sibTouched[op.Loc] = true
+				}
+				if op.Kind == "handshake" && op.Probe != 3 { // probe 3 names no distribution point
+					announced[op.Loc] = true
+				}
+			}
+		}
+		for loc := range announced {
+			v := world.Ask(ch, locs[loc].probes[0])
+			if v.Kind == "revoked" {
+				continue
+			}
+			if !sibTouched[loc] {
 				fail("fetch_background: location %d was announced by a handshake, no refresh run is under way any more, and the serial listed in both lists still answers %v: the forced refresh for the new location was dropped", loc, v)
+				continue
+			}
+			// the location may have been announced by the certificate of the same-name sibling CA, whose chain cannot
+			// verify the list: that first load fails legitimately. The handshake just made carried the right chain, so
+			// the next refresh run must bring the list into force.
+			if _, err := world.Call("forced refresh", refreshWatchdog, func() int { ch.VerifForceUpdate(); return 0 }); err != nil {
+				fail("forced refresh never returned: %v", err)
+			}
+			if v2 := world.Ask(ch, locs[loc].probes[0]); v2.Kind != "revoked" {
+				fail("fetch_background: location %d was first announced by a certificate whose chain cannot verify the list; after a handshake with the issuing CA's chain and a refresh run the serial listed in both lists still answers %v: the not yet loaded entry keeps the chains of its first announcer", loc, v2)
 			}
 		}
 	}
@@ -502,7 +536,7 @@ var spec = ev.Spec[Case]{
 	ID:          "C13",
 	Gen:         genCase,
 	Run:         runCase,
-	Rule:        "rapid draws a concurrent scenario: 2..16 goroutines with 2..12 operations each from {handshake(one of 1..3 locations; probe listed in both lists / only in the new list / unlisted / listed but naming no CDP), refresh tick, forced (background-style) refresh, config-CRL update, OCSP lookup with a 50 ms cache while the responder flips, pause}, both back-ends, both fetch modes, strict or lenient, optionally location 0 also configured as crl_url, optionally the prefix state 'last refresh failed signature verification', publication of a new list at a drawn point, Cleanup during or after the run, list sizes 1..1500, optionally an origin whose first 1..2 requests per location get an error page, and sleeps/yields at the verif hook sites. Each scenario runs in its own child process built with -race. Oracles: the race detector log is empty; the child exits normally (no fatal error, no panic); every API call returns within the watchdog; verdicts are ones a sequential order could produce (unlisted never revoked, new-only never revoked before publication, a handshake naming the CDP in fetch_actively mode never accepts a serial listed in both lists (with the flaky origin: at most as many such acceptances per location as downloads that got an error page), no errors in lenient mode before shutdown; in fetch_background mode, once no refresh run is under way, every location a handshake announced is in force without any periodic tick). Non-trivial: >= 2 goroutines touch the same location and a writer (refresh / publication) is present. This explores schedules; it does not cover them.",
+	Rule:        "rapid draws a concurrent scenario: 2..16 goroutines with 2..12 operations each from {handshake(one of 1..3 locations; probe listed in both lists / only in the new list / unlisted / listed but naming no CDP), refresh tick, forced (background-style) refresh, config-CRL update, OCSP lookup with a 50 ms cache while the responder flips, pause}, both back-ends, both fetch modes, strict or lenient, optionally location 0 also configured as crl_url, optionally the prefix state 'last refresh failed signature verification', publication of a new list at a drawn point, Cleanup during or after the run, list sizes 1..1500, optionally an origin whose first 1..2 requests per location get an error page, and sleeps/yields at the verif hook sites. Each scenario runs in its own child process built with -race. Oracles: the race detector log is empty; the child exits normally (no fatal error, no panic); every API call returns within the watchdog; verdicts are ones a sequential order could produce (unlisted never revoked, new-only never revoked before publication, a handshake naming the CDP in fetch_actively mode never accepts a serial listed in both lists (with the flaky origin: at most as many such acceptances per location as downloads that got an error page), no errors in lenient mode before shutdown; in fetch_background mode, once no refresh run is under way, every location a handshake announced is in force without any periodic tick (a location first announced by the sibling CA's certificate: after one more handshake with the issuing CA's chain and one refresh run). Non-trivial: >= 2 goroutines touch the same location and a writer (refresh / publication) is present. This explores schedules; it does not cover them.",
 	Assumptions: []string{"the Go race detector is the oracle for data races; schedules are sampled, not enumerated"},
 }
 
